@@ -2,7 +2,7 @@
    the model in Model.v / Skeleton.v; Gen/C12.v is regenerated from /repo on every run. *)
 From Coq Require Import Relations.
 From Sdns Require Import Common.Base Gen.C12 C12.Model C12.Skeleton
-  C12.Proofs_ledger C12.Proofs_sig C12.Proofs_guard C12.Proofs_run C12.Proofs_skeleton C12.Proofs_reply C12.Proofs_query C12.Proofs_trace C12.Run.
+  C12.Proofs_ledger C12.Proofs_sig C12.Proofs_guard C12.Proofs_run C12.Proofs_skeleton C12.Proofs_reply C12.Proofs_query C12.Proofs_trace C12.Proofs_walk C12.ModelDS C12.Proofs_ds C12.Run.
 Open Scope N_scope.
 
 (* ---- translator ties: the kind sets the two dimension switches range over, the DNSSEC/network
@@ -218,8 +218,8 @@ Proof. exact (@budgets_hold). Qed.
 Print Assumptions exchange_preceded_by_debit.
 
 (* ... and the resolver skeleton is such a program, for every configuration *)
-Theorem skeleton_is_guarded : forall maxdepth qmin v6 Smax Fmax Lmax G gen c, guarded (client maxdepth qmin v6 Smax Fmax Lmax G gen c).
-Proof. exact client_guarded. Qed.
+Theorem skeleton_is_guarded : forall maxdepth qmin v6 Smax Fmax Lmax G c, guarded (client maxdepth qmin v6 Smax Fmax Lmax G c).
+Proof. exact client1_guarded. Qed.
 Print Assumptions skeleton_is_guarded.
 
 (* ---- (iii bis) the skeleton step by step (session 3).
@@ -238,9 +238,9 @@ Print Assumptions budgets_hold_at_every_step.
    context of each (queryer nesting, CNAME-chase depth, DNAME depth, NS-lookup mark, best-effort mark) derives
    from the context of the run that asked for it by exactly one legitimate step ([child_ok]); at the end
    every run has returned. *)
-Theorem subquery_call_tree : forall maxdepth qmin v6 Smax Fmax Lmax G gen c adv w,
-  tree_run v6 (mk_sl 0 c) [] (trace adv (client maxdepth qmin v6 Smax Fmax Lmax G gen c) w) = Some (mk_sl 0 c, []).
-Proof. exact client_call_tree_lemma. Qed.
+Theorem subquery_call_tree : forall maxdepth qmin v6 Smax Fmax Lmax G c adv w,
+  tree_run v6 (mk_sl 0 c) [] (trace adv (client maxdepth qmin v6 Smax Fmax Lmax G c) w) = Some (mk_sl 0 c, []).
+Proof. exact client1_call_tree. Qed.
 Print Assumptions subquery_call_tree.
 
 (* ... and what one legitimate step means for the three depth counters *)
@@ -255,18 +255,19 @@ Print Assumptions call_tree_step_respects_caps.
 
 (* ... the same for an observer who learns every sub-run's parent directly (the lab's probe passes its identity down the
    context): each (parent, child) pair is a legitimate step, a sub-run without a parent is the first query of a detached
-   IPv6 walk — nesting 1 on the fresh context (wave 5: the detached walk is modelled as the code runs it) *)
-Theorem subquery_pairs : forall maxdepth qmin v6 Smax Fmax Lmax G gen c adv w,
-  forallb (pair_ok v6) (pairs_of (mk_sl 0 c) [] (trace adv (client maxdepth qmin v6 Smax Fmax Lmax G gen c) w)) = true.
-Proof. exact client_pairs_lemma. Qed.
+   IPv6 walk — nesting 1 on the fresh, walk-marked context, started from a run whose context carries no walk mark
+   (wave 5: the detached walk is modelled as the code runs it; session 4: as it runs since fix 1508bf1) *)
+Theorem subquery_pairs : forall maxdepth qmin v6 Smax Fmax Lmax G c adv w,
+  forallb (pair_ok v6) (pairs_of (mk_sl 0 c) [] (trace adv (client maxdepth qmin v6 Smax Fmax Lmax G c) w)) = true.
+Proof. exact client1_pairs. Qed.
 Print Assumptions subquery_pairs.
 
 (* non-vacuity: a run of the client program with nested sub-runs (hit path, chase three levels deep on an
    internal budget of 3), and one with exchanges only *)
 Example trace_example :
   let pol := mk_T_RecursionWorkPolicy mode_enforce 128 3 4 8 32 32 32 32 in
-  let tr := trace (fun _ => 1%nat) (client 30 5 false 1 1 3 2 1 cx0) (fresh pol) in
-  let tx := trace (fun j => match j with O => O | _ => 1%nat end) (client 30 5 false 1 1 3 2 1 cx0) (fresh pol) in
+  let tr := trace (fun _ => 1%nat) (client 30 5 false 1 1 3 2 cx0) (fresh pol) in
+  let tx := trace (fun j => match j with O => O | _ => 1%nat end) (client 30 5 false 1 1 3 2 cx0) (fresh pol) in
   length (filter (fun e => match e with EvS _ _ _ => true | _ => false end) tr) = 3%nat /\
   steps_ok true 128 3 0 0 0 0 tr = true /\
   length (filter (fun e => match e with EvX _ _ => true | _ => false end) tx) = 8%nat /\
@@ -280,9 +281,9 @@ Example detached_and_validation_example :
   let pol := mk_T_RecursionWorkPolicy mode_enforce 128 32 4 8 32 32 32 32 in
   let adv1 := fun j => nth j [0;0;0;3;0;2;6;0;0;1;1;1;0;0;0;3;0;0;0;0]%nat 0%nat in
   let adv2 := fun j => nth j [0;0;0;3;0;2;1;1;1;0;0;3;0;0;0]%nat 0%nat in
-  trace adv1 (client 30 5 true 1 1 3 2 1 cx0) (fresh pol) = [EvX 1 0; EvS (mk_sl 1 cx_fresh) 1 1; EvE; EvX 2 1] /\
-  trace adv2 (client 30 5 false 1 1 3 2 1 cx0) (fresh pol) = [EvX 1 0; EvS (mk_dl 0 cx0) 1 1; EvX 2 1; EvE] /\
-  (let w := fst (run adv2 (client 30 5 false 1 1 3 2 1 cx0) (fresh pol)) in w_sub w = 1 /\ l_int (w_led w) = 1 /\ l_out (w_led w) = 2).
+  trace adv1 (client 30 5 true 1 1 3 2 cx0) (fresh pol) = [EvX 1 0; EvS (mk_sl 1 cx_fresh) 1 1; EvE; EvX 2 1] /\
+  trace adv2 (client 30 5 false 1 1 3 2 cx0) (fresh pol) = [EvX 1 0; EvS (mk_dl 0 cx0) 1 1; EvX 2 1; EvE] /\
+  (let w := fst (run adv2 (client 30 5 false 1 1 3 2 cx0) (fresh pol)) in w_sub w = 1 /\ l_int (w_led w) = 1 /\ l_out (w_led w) = 2).
 Proof. vm_compute. repeat split. Qed.
 
 (* ---- the forwarder (wave 5): every transport attempt of middleware/forwarder — the TCP retry after TC=1 included — sits
@@ -309,32 +310,65 @@ Proof. vm_compute. repeat split. Qed.
    the guard tested by the Go code made the tuple smaller (the ob_ lemmas of Skeleton.v); everything else
    structurally on the code's own counters; no fuel anywhere, no axiom (session 3: the Equations
    definition and with it functional_extensionality_dep are gone) *)
-Theorem resolve_terminates : forall maxdepth qmin v6 Smax Fmax Lmax G gen adv w,
-  exists w' r, run adv (client maxdepth qmin v6 Smax Fmax Lmax G gen cx0) w = (w', r).
-Proof. exact resolve_terminates_lemma. Qed.
+Theorem resolve_terminates : forall maxdepth qmin v6 Smax Fmax Lmax G adv w,
+  exists w' r, run adv (client maxdepth qmin v6 Smax Fmax Lmax G cx0) w = (w', r).
+Proof. exact client1_terminates. Qed.
 Print Assumptions resolve_terminates.
 Print Assumptions resolve.
 
 (* work_bound_off: a computable bound (Proofs_skeleton.work_bound, defined by the same recursions as the skeleton: nested
-   queries 32 deep, validation sub-queries over at most Lmax labels with G repeats of one question, [gen] generations of
-   detached IPv6 walks inside the observation window) on the exchanges of one client query in EVERY mode (so in particular
-   with the firewall off), for every adversary whose delegations carry at most Smax+1 server addresses and Fmax glue-less
-   names.  With IPv6Access the bound grows with [gen] and nothing in the code but the ledger (enforce mode) bounds [gen]:
-   see NOTES.md, "detached generations". *)
-Theorem work_bound_off : forall maxdepth qmin v6 Smax Fmax Lmax G gen adv w,
-  w_exch (fst (run adv (client maxdepth qmin v6 Smax Fmax Lmax G gen cx0) w)) <= w_exch w + N.of_nat (work_bound maxdepth qmin Smax Fmax Lmax G gen).
-Proof. exact work_bound_off_lemma. Qed.
+   queries 32 deep, validation sub-queries over at most Lmax labels with G repeats of one question, ONE generation of
+   detached IPv6 walks) on the exchanges of one client query in EVERY mode (so in particular with the firewall off), for
+   every adversary whose delegations carry at most Smax+1 server addresses and Fmax glue-less names.  Session 4: the bound
+   is no longer parameterised by a number of generations — since fix 1508bf1 the code admits one (next theorem). *)
+Theorem work_bound_off : forall maxdepth qmin v6 Smax Fmax Lmax G adv w,
+  w_exch (fst (run adv (client maxdepth qmin v6 Smax Fmax Lmax G cx0) w)) <= w_exch w + N.of_nat (work_bound1 maxdepth qmin Smax Fmax Lmax G).
+Proof. exact client1_work_bound. Qed.
 Print Assumptions work_bound_off.
+
+(* detached_generations_at_most_one (session 4, fix 1508bf1): in every run of the client program, against every
+   adversary — however many fresh zones it keeps delegating to nameservers without AAAA glue —, no sub-run has a generation
+   above 1: the generation of a sub-run counts the detached-walk starts on its path from the client's own chain
+   ([gens_of]: a run whose context carries the walk mark, started from one whose context does not).  The lab reconstructs
+   the same numbers from who started whom (request-id dye) and Run.spec_case requires them to be <= 1. *)
+Theorem detached_generations_at_most_one : forall maxdepth qmin v6 Smax Fmax Lmax G c adv w, cx_walk c = false ->
+  Forall (fun g => (g <= 1)%nat) (gens_of false 0 [] (trace adv (client maxdepth qmin v6 Smax Fmax Lmax G c) w)).
+Proof. exact client1_generations. Qed.
+Print Assumptions detached_generations_at_most_one.
+
+(* ... because the mark travels: a run inside a walk has only children inside the walk, and a run outside gets a marked
+   child only as the first query of a walk (nesting 1, the fresh context, IPv6Access on) *)
+Theorem walk_contexts_inherit_mark : forall maxdepth qmin v6 Smax Fmax Lmax G c adv w par ch,
+  In (Some par, ch) (pairs_of (mk_sl 0 c) [] (trace adv (client maxdepth qmin v6 Smax Fmax Lmax G c) w)) ->
+  (cx_walk (sl_cx par) = true -> cx_walk (sl_cx ch) = true) /\
+  (cx_walk (sl_cx par) = false -> cx_walk (sl_cx ch) = true -> sl_nest ch = 1%nat /\ sl_cx ch = cx_fresh /\ v6 = true).
+Proof. exact client1_marks. Qed.
+Print Assumptions walk_contexts_inherit_mark.
+
+(* the checker the lab applies to recorded events admits no second generation, whatever the events are *)
+Theorem call_tree_checker_bounds_generations : forall v6 tr cur st s', tree_run v6 cur st tr = Some s' ->
+  Forall (fun g => (g <= 1)%nat) (gens_of (cx_walk (sl_cx cur)) (b2n (cx_walk (sl_cx cur))) (gstack st) tr).
+Proof. exact tree_run_gens. Qed.
+Print Assumptions call_tree_checker_bounds_generations.
+
+(* non-vacuity: IPv6Access on, the new delegation starts a walk (generation 1, marked context); inside it nothing starts
+   another: the same adversary choices under a marked client context start none at all *)
+Example one_generation_example :
+  let pol := mk_T_RecursionWorkPolicy mode_enforce 128 32 4 8 32 32 32 32 in
+  let adv1 := fun j => nth j [0;0;0;3;0;2;6;0;0;1;1;1;0;0;0;3;0;0;0;0]%nat 0%nat in
+  gens_of false 0 [] (trace adv1 (client 30 5 true 1 1 3 2 cx0) (fresh pol)) = [1%nat] /\
+  trace adv1 (client 30 5 true 1 1 3 2 (mk_cx false O O false true)) (fresh pol) = [EvX 1 0; EvX 2 0].
+Proof. vm_compute. repeat split. Qed.
 
 (* overbudget_is_servfail_not_cached: if the request tree ends with a latched rejection, the client's
    reply is the policy SERVFAIL built from the client's request (so an EDNS client gets the Extended
    DNS Error), and it is never handed to the failure cache — on the cache-miss path and, since fix
    ca465fd, on the cache-hit path as well.  (Before the fix the EDE clause was refuted on the hit path;
    reverting the fix makes the lab report the violation again.) *)
-Theorem overbudget_is_servfail_not_cached : forall maxdepth qmin v6 Smax Fmax Lmax G gen pol adv,
-  let '(w', r) := run adv (client maxdepth qmin v6 Smax Fmax Lmax G gen cx0) (fresh pol) in
+Theorem overbudget_is_servfail_not_cached : forall maxdepth qmin v6 Smax Fmax Lmax G pol adv,
+  let '(w', r) := run adv (client maxdepth qmin v6 Smax Fmax Lmax G cx0) (fresh pol) in
   latched w' -> exists e, r = ReplyWork e true.
-Proof. exact overbudget_lemma. Qed.
+Proof. exact client1_overbudget. Qed.
 Print Assumptions overbudget_is_servfail_not_cached.
 
 Theorem overbudget_miss_path_carries_ede : forall maxdepth qmin v6 Smax Fmax nq nq0 vq c adv w e ede,
@@ -344,20 +378,51 @@ Print Assumptions overbudget_miss_path_carries_ede.
 
 (* non-vacuity, and the former counterexample: the hit-path chase runs over an internal budget of 1 *)
 Example overbudget_hit_path_example :
-  let '(w', r) := run (fun _ => 1%nat) (client 30 5 false 1 1 3 2 1 cx0) (fresh witness_pol) in
+  let '(w', r) := run (fun _ => 1%nat) (client 30 5 false 1 1 3 2 cx0) (fresh witness_pol) in
   latched w' /\ r = ReplyWork (RLimit kind_internal 1) true.
 Proof. exact overbudget_hit_path_example_lemma. Qed.
 
 (* shadow_equals_off: as functions of the adversary, the reply, the upstream exchanges and the
    sub-queries of one client query are identical with the firewall off and in shadow mode *)
-Theorem shadow_equals_off : forall maxdepth qmin v6 Smax Fmax Lmax G gen pol_off pol_shadow adv,
+Theorem shadow_equals_off : forall maxdepth qmin v6 Smax Fmax Lmax G pol_off pol_shadow adv,
   p_mode pol_off = mode_off -> p_mode pol_shadow = mode_shadow ->
-  let p := client maxdepth qmin v6 Smax Fmax Lmax G gen cx0 in
+  let p := client maxdepth qmin v6 Smax Fmax Lmax G cx0 in
   snd (run adv p (fresh pol_off)) = snd (run adv p (fresh pol_shadow)) /\
   w_exch (fst (run adv p (fresh pol_off))) = w_exch (fst (run adv p (fresh pol_shadow))) /\
   w_sub (fst (run adv p (fresh pol_off))) = w_sub (fst (run adv p (fresh pol_shadow))).
-Proof. exact shadow_equals_off_lemma. Qed.
+Proof. exact client1_shadow_equals_off. Qed.
 Print Assumptions shadow_equals_off.
+
+(* ---- the DS step of verifyDNSSEC (session 4): dnssec.VerifyDSWithWork, then DSMatchedKeys, on the tree's ledger.
+   ds_digest_work_bounded: enforce mode, a fresh request tree, ANY DS set (padded, duplicated, colliding), any key set and
+   any visiting order: the digests computed stay within MaxDSDigests; one pass stays within what the candidate allowance
+   admits for the shape; every key reported as vouched for has a supported, well-formed DS naming it that carries its
+   digest, and every digest on the way — one per record tried in the first pass and in the pass that confirmed the key —
+   is on the ledger (nothing is confirmed on unpaid digests).  Run.check_case compares [ds_run] with the real functions. *)
+Theorem ds_digest_work_bounded : forall K D dsl korder,
+  let pol := ds_policy mode_enforce K D in
+  let '(l, v, m) := ds_run (new_ledger pol) dsl korder in
+  l_ds l <= D /\
+  l_ds (fst (verify_ds (new_ledger pol) dsl)) <= ds_shape_bound K dsl /\
+  forallb (fun j => has_match j dsl) m = true /\
+  (v = DOk -> fst (pass_cost dsl) + fold_right (fun j a => fst (pass_cost (restrict j dsl)) + a) 0 m <= l_ds l).
+Proof. exact ds_digest_work_bounded_lemma. Qed.
+Print Assumptions ds_digest_work_bounded.
+
+Theorem ds_shadow_never_refuses : forall K D dsl korder,
+  let '(_, v, _) := ds_run (new_ledger (ds_policy mode_shadow K D)) dsl korder in forall e, v <> DWork e.
+Proof. exact ds_shadow_never_refuses_lemma. Qed.
+Print Assumptions ds_shadow_never_refuses.
+
+Example ds_padded_set :
+  let wrong := (true, true, [(0%nat, false); (1%nat, false)]) in
+  let dsl := (true, true, [(0%nat, true); (1%nat, false)]) :: repeat wrong 10 ++ [(true, true, [(0%nat, false); (1%nat, true)])] in
+  (let '(l, v, m) := ds_run (new_ledger (ds_policy mode_enforce 4 4)) dsl [0%nat; 1%nat] in
+   v = DOk /\ m = [0%nat] /\ l_ds l = 4 /\ N.land (l_exh l) bit_ds_digest = bit_ds_digest) /\
+  (let '(l, v, m) := ds_run (new_ledger (ds_policy mode_enforce 4 14)) dsl [0%nat; 1%nat] in
+   v = DOk /\ m = [0%nat; 1%nat] /\ l_ds l = 14 /\ l_exh l = 0) /\
+  ds_need dsl [0%nat; 1%nat] = 14.
+Proof. exact ds_padded_set_example. Qed.
 
 (* ---- non-vacuity *)
 (* three threads, two debits each, cap 4: a schedule that interleaves loads and CASes; 4 accepted, 2 refused *)
@@ -368,9 +433,9 @@ Proof. vm_compute. repeat split. Qed.
 
 (* the skeleton reaches its internal budget: the adversary of the refutation spends it exactly *)
 Example budget_reached_example :
-  let w' := fst (run (fun _ => 1%nat) (client 30 5 false 1 1 3 2 1 cx0) (fresh witness_pol)) in
-  w_sub w' = p_max_int witness_pol /\ wenf (fresh witness_pol) /\ guarded (client 30 5 false 1 1 3 2 1 cx0).
-Proof. split; [vm_compute; reflexivity|split; [reflexivity|apply client_guarded]]. Qed.
+  let w' := fst (run (fun _ => 1%nat) (client 30 5 false 1 1 3 2 cx0) (fresh witness_pol)) in
+  w_sub w' = p_max_int witness_pol /\ wenf (fresh witness_pol) /\ guarded (client 30 5 false 1 1 3 2 cx0).
+Proof. split; [vm_compute; reflexivity|split; [reflexivity|apply client1_guarded]]. Qed.
 
 (* a fourth attempt for a tuple sitting in the overflow map (nine other tuples fill the slots first) *)
 Example guard_example :
